@@ -35,7 +35,7 @@ class Frame:
 
 
 class Ctx:
-    def __init__(self, prefix, timeout_ms=10000):
+    def __init__(self, prefix, timeout_ms=30000):
         self.frames = [Frame(prefix)]
         self.solver = z3.Solver()
         self.solver.set('timeout', timeout_ms)
@@ -859,7 +859,7 @@ class PathResult:
         self.detail = detail
 
 
-def explore(harness, maxpaths=20000, timeout=None, query_timeout_ms=10000):
+def explore(harness, maxpaths=20000, timeout=None, query_timeout_ms=30000):
     """Enumerate all feasible paths of harness() by re-execution.  harness returns any value (its verdict for the path)."""
     global ctx
     results = []
